@@ -65,8 +65,9 @@ def match_callbacks(run, prop: str, c: Dict[str, int]) -> List[Viol]:
     def ident(dev):
         return (dev.get("cls"), dev.get("device_id"))
 
-    def solve(i, pos, greys_left):
-        """pos: per-port count of valid entries consumed so far (order forces a prefix)."""
+    def solve(i, pos, greys_left, strict):
+        """pos: per-port count of valid entries consumed so far (order forces a prefix).
+        strict: a callback may only be attributed to an arrival it decodes exactly."""
         budget[0] -= 1
         if budget[0] < 0:
             return None
@@ -78,18 +79,25 @@ def match_callbacks(run, prop: str, c: Dict[str, int]) -> List[Viol]:
             if pos[k] < len(valid_idx[p]):
                 e = exp[p][valid_idx[p][pos[k]]]
                 if ident(e["dev"]) == ident(got):
+                    d = fields_diff(e["dev"], got)
+                    if strict and d:
+                        continue
                     tried = True
-                    rest = solve(i + 1, pos[:k] + (pos[k] + 1,) + pos[k + 1:], greys_left)
+                    rest = solve(i + 1, pos[:k] + (pos[k] + 1,) + pos[k + 1:], greys_left, strict)
                     if rest is not None:
-                        d = fields_diff(e["dev"], got)
                         return ([(e, got, d)] if d else []) + rest
         if not tried and greys_left:
             known = any(ident(e["dev"]) == ident(got) for p in run.ports for e in exp[p] if e["class"] == "valid")
             if not known:
-                return solve(i + 1, pos, greys_left - 1)
+                return solve(i + 1, pos, greys_left - 1, strict)
         return None
 
-    sol = solve(0, tuple(0 for _ in run.ports), n_grey)
+    # the same device may broadcast again with other values: first look for an assignment in which every callback
+    # is an exact decoding; only if there is none, allow wrongly decoded fields (and report them)
+    sol = solve(0, tuple(0 for _ in run.ports), n_grey, True)
+    if sol is None:
+        budget[0] = 20000
+        sol = solve(0, tuple(0 for _ in run.ports), n_grey, False)
     if sol is not None:
         cnt(c, "judged-deliveries", len(cbs))
         v = []
@@ -374,6 +382,10 @@ def judge_c17(scn, run) -> Tuple[List[Viol], Dict[str, int]]:
                 v.append(("C17/not-listening-while-running", "a broadcast to port %d found no bridge socket while running" % a["port"]))
             elif a["payload"][18:21].hex() not in delivered_ids:
                 v.append(("C17/missing-delivery", "a broadcast that arrived while running was never delivered"))
+    cnt(c, "judged-iteration-samples", getattr(run, "running_samples", 0))
+    for smp in getattr(run, "running_but_not_listening", [])[:1]:
+        v.append(("C17/running-while-not-listening-on-all-ports",
+                  "is_running was True at a moment when the bridge held only ports %s of %s" % (smp["held"], ports)))
     if getattr(run, "final_held", []) and not running:
         v.append(("C17/ports-left-bound-at-end", "ports %s still bound at the end" % run.final_held))
     return v, c
